@@ -378,7 +378,13 @@ func genType(r *rng, depth int) reflect.Type {
 			if r.chance(10) {
 				tag += ",set"
 			}
-			if ft.Kind() == reflect.String && r.chance(30) {
+			// the string type named for a member also holds for the elements of a list of strings (and of lists of lists, through
+			// pointers): they are the member's strings
+			inner := ft
+			for inner.Kind() == reflect.Slice || inner.Kind() == reflect.Ptr {
+				inner = inner.Elem()
+			}
+			if (ft.Kind() == reflect.String && r.chance(30)) || (ft.Kind() != reflect.String && inner.Kind() == reflect.String && r.chance(60)) {
 				tag += r.pickStr(",utf8", ",ia5", ",graphic")
 			}
 			fs = append(fs, reflect.StructField{Name: fmt.Sprintf("F%d", i), Type: ft, Tag: reflect.StructTag(`ber:"` + tag + `"`)})
@@ -739,6 +745,24 @@ func genBer(o genOpts, w *bufio.Writer) {
 			b = append(b[:i], b[i+1:]...)
 		}
 		fmt.Fprintf(w, "ber U %s %s %s\n", tyStr(t, 0), paramStr(""), hx(b))
+	}
+	// 4b. every schema type BY NAME (the real cdrType struct, with every parameter its tags carry - `default:` among them)
+	// against octets that are well-formed BER but not what the type expects: an empty SEQUENCE, members of the wrong universal
+	// type, context tags 0..6 primitive and constructed with a NULL / an INTEGER / junk inside
+	probes := []string{"3000", "30020500", "3003020105", "300401020304", "3100", "0500", "020105", "a0020500", "a003020105"}
+	for k := 0; k <= 6; k++ {
+		probes = append(probes,
+			fmt.Sprintf("3003%02x01ff", 0x80|k), fmt.Sprintf("3004%02x020500", 0xa0|k), fmt.Sprintf("3005%02x03020105", 0xa0|k),
+			fmt.Sprintf("3002%02x00", 0x80|k), fmt.Sprintf("%02x020500", 0xa0|k), fmt.Sprintf("3006%02x04%02x020500", 0xa0|k, 0xa0|(k+1)%7))
+	}
+	for ni, name := range cdrTypeNames {
+		for pi, pr := range probes {
+			// quick: a third of the probes per type (rotating), thorough: all
+			if o.tier != "thorough" && (pi+ni)%3 != int(o.seed%3) {
+				continue
+			}
+			fmt.Fprintf(w, "ber U T:%s %s %s\n", name, paramStr(""), pr)
+		}
 	}
 	// 5.-7. un-encodable values, histories of marshal calls, concurrent decoding (ber_hostile.go)
 	genBerHostile(o, w)
